@@ -1,11 +1,11 @@
 """C10 — tenants are isolated (id mapping arithmetic in the server binary; MIR obligations on RPC bodies)."""
-from vlib.runner import KH, run_kani_group
+from vlib.mo import *
+from vlib.runner import KH, run_kani_group, run_mir_obligations
 
-ENGINES = "K"
 LEVEL = "other"
 EXPLANATION = "Kani/CBMC: pure 64-bit bit-vector queries over the real TenantIdMapper functions compiled inside the server binary (all tenant/local id pairs)."
 TRUSTED_BASE = ["Kani 0.68 MIR->goto translation", "CBMC 6.11 + CaDiCaL", "stub: std::fmt::format (Status message text)"]
-NOT_COVERED = ["end-to-end RPC sequences", "cache reuse across tenants through the running server", "/usage endpoint", "query_cache_scope collision-freeness (64-bit hash)",
+NOT_COVERED = ["end-to-end RPC sequences", "that the ownership comparison itself is correct (string compare of the stored index; data level)", "cache reuse across tenants through the running server", "/usage endpoint", "query_cache_scope collision-freeness (64-bit hash)",
                "AuthManager::validate and sanitize_public_metadata (std HashMap iteration is beyond CBMC here: probe > 7 min)"]
 F = [("bin/kyrodb_server.rs", "to_global_doc_id"), ("bin/kyrodb_server.rs", "is_tenant_doc_id"), ("bin/kyrodb_server.rs", "to_local_doc_id")]
 HARNESSES = [
@@ -16,5 +16,83 @@ HARNESSES = [
 ]
 
 
+RPC = lambda name: "<KyroDBServiceImpl as KyroDbService>::%s::{closure#0}::{closure#0}" % name
+TENANT_CTX = call(r"= KyroDBServiceImpl::tenant_context(::<[^(]*>)?\(", name="tenant_context")
+RATE = call(r"= KyroDBServiceImpl::enforce_rate_limit\(", name="enforce_rate_limit")
+MAP_ID = call(r"= KyroDBServiceImpl::map_doc_id\(", name="map_doc_id (range-checked tenant id mapping)")
+ENGINE = call(r"= TieredEngine::(insert|bulk_load_cold_tier|delete|batch_delete|batch_delete_by_metadata_filter|update_metadata|query_with_source|bulk_query_with_source|get_metadata|exists|get_document_with_metadata)\(", name="engine data call")
+SANITIZE = call(r"= KyroDBServiceImpl::sanitize_public_metadata\(", name="sanitize_public_metadata")
+STREAM_MSG = call(r"async fn body of Streaming<.*>::message\(\)\} as .*Future>::poll\(", name="stream.message().await (next item)")
+BATCH_PUSH = call(r"= Vec::<\(u64, Vec<f32>, HashMap<String, String>\)>::push\(", name="documents.push(item)")
+MAP_OK = Arm(r"^discr\(call KyroDBServiceImpl::map_doc_id\)$|^discr\(try\(call KyroDBServiceImpl::map_doc_id\)\)$", {"0"}, name="map_doc_id -> Ok")
+
+
+def rpc_guard(name, id_mapped=True, per_item_rate=False):
+    f = RPC(name)
+    cs = [precedes(f, TENANT_CTX, ENGINE), precedes(f, RATE, ENGINE)]
+    if id_mapped:
+        cs.append(precedes(f, MAP_ID, ENGINE))          # no engine call with an id that did not go through the range-checked mapping
+        cs.append(only_via(f, ENGINE, MAP_OK))          # ... and the mapping succeeded
+    return allof(*cs)
+
+
+def reserved_keys_overwritten(name, engine_re):
+    """write RPCs: the client's reserved keys are removed before the server's values are inserted and before the engine sees the metadata"""
+    f = RPC(name)
+    REM = call(r"= HashMap::<String, String>::remove::<str>\(", name='metadata.remove("__tenant_idx__" / "__namespace__")')
+    ENG = call(engine_re, name="engine write")
+    return allof(precedes(f, REM, ENG), follows(f, MAP_ID, REM, exit="any", exit_ev=ENG))
+
+
+MOS = [
+    MO("O10.4/guards", "every data RPC resolves the tenant, enforces the rate limit and maps the document id through the range-checked map_doc_id (successfully) before any engine call",
+       allof(*[rpc_guard(n) for n in ("insert", "bulk_insert", "query", "delete", "update_metadata")],
+             # bulk_query maps a list of ids in a loop before one engine call (an empty list reaches the engine unmapped, harmlessly)
+             precedes(RPC("bulk_query"), TENANT_CTX, ENGINE), precedes(RPC("bulk_query"), RATE, ENGINE), lambda F: FnCheck(F, RPC("bulk_query")).reachable(MAP_ID),
+             never(RPC("bulk_query"), ENGINE, frm=Arm(r"^discr\(try\(call KyroDBServiceImpl::map_doc_id\)\)$|^discr\(call KyroDBServiceImpl::map_doc_id\)$", {"1"}, name="map_doc_id -> Err")),
+             # bulk_load_hnsw batches items: the engine is also called after the stream ended (possibly with an empty batch),
+             # so the guard is stated per item: from receiving a message, the batch push is reached only through map_doc_id -> Ok
+             precedes(RPC("bulk_load_hnsw"), TENANT_CTX, ENGINE), precedes(RPC("bulk_load_hnsw"), RATE, ENGINE),
+             lambda F: _per_item_mapped(F),
+             precedes(RPC("batch_delete"), TENANT_CTX, ENGINE), precedes(RPC("batch_delete"), RATE, ENGINE)),
+       functions=[("bin/kyrodb_server.rs", n) for n in ("insert", "bulk_insert", "bulk_load_hnsw", "query", "bulk_query", "delete", "update_metadata", "batch_delete")], target="kyrodb_server"),
+    MO("O10.4/reserved_keys", "insert / bulk_insert / bulk_load_hnsw: client-supplied reserved keys are removed before the server-owned values are written and before the engine sees the metadata; responses are sanitised",
+       allof(reserved_keys_overwritten("insert", r"= TieredEngine::insert\("), reserved_keys_overwritten("bulk_insert", r"= TieredEngine::insert\("),
+             follows(RPC("bulk_load_hnsw"), MAP_ID, call(r"= HashMap::<String, String>::remove::<str>\(", name="metadata.remove(reserved)"), exit="any", exit_ev=BATCH_PUSH),
+             lambda F: FnCheck(F, RPC("query")).reachable(SANITIZE), lambda F: FnCheck(F, RPC("bulk_query")).reachable(SANITIZE),
+             lambda F: _sanitize_removes_all(F)),
+       functions=[("bin/kyrodb_server.rs", n) for n in ("insert", "bulk_insert", "bulk_load_hnsw", "sanitize_public_metadata")], target="kyrodb_server"),
+    MO("O10.4/ownership", "query / delete / update_metadata: the stored __tenant_idx__ is read (engine.get_metadata) before the document is served, deleted or updated",
+       allof(precedes(RPC("query"), call(r"= TieredEngine::get_metadata\(", name="engine.get_metadata (ownership check)"), call(r"= TieredEngine::query_with_source\(", name="engine.query_with_source")),
+             precedes(RPC("delete"), call(r"= TieredEngine::get_metadata\(", name="engine.get_metadata (ownership check)"), call(r"= TieredEngine::delete\(", name="engine.delete")),
+             precedes(RPC("update_metadata"), call(r"= TieredEngine::get_metadata\(", name="engine.get_metadata (ownership check)"), call(r"= TieredEngine::update_metadata\(", name="engine.update_metadata"))),
+       functions=[("bin/kyrodb_server.rs", n) for n in ("query", "delete", "update_metadata")], target="kyrodb_server"),
+]
+
+
+def _per_item_mapped(F):
+    fc = FnCheck(F, RPC("bulk_load_hnsw"))
+    if fc.fn is None:
+        return fc.missing()
+    if fc.count(STREAM_MSG) == 0 or fc.count(BATCH_PUSH) == 0:
+        return Result("inconclusive", "stream receive / batch push not found in bulk_load_hnsw")
+    if fc.count(MAP_ID) == 0:
+        r = fc.reachable(BATCH_PUSH)
+        return Result("violated" if r.verdict == "holds" else "inconclusive",
+                      "bulk_load_hnsw pushes stream items into the engine batch without calling map_doc_id: local ids >= 2^32 spill into the tenant half of the global id",
+                      queries=r.queries, seconds=r.seconds, sample={"fn": fc.name, "kind": "FOLLOWS", "A": STREAM_MSG.name, "B": MAP_ID.name, "exit": BATCH_PUSH.name})
+    return [fc.follows(STREAM_MSG, MAP_ID, exit="any", exit_ev=BATCH_PUSH), fc.never(BATCH_PUSH, frm=STREAM_MSG, cut=[MAP_OK])]
+
+
+def _sanitize_removes_all(F):
+    fc = FnCheck(F, "KyroDBServiceImpl::sanitize_public_metadata")
+    if fc.fn is None:
+        return fc.missing()
+    n = fc.count(call(r"= HashMap::<String, String>::remove::<str>\(", name="remove"))
+    if n >= 3:
+        return Result("holds", "%d reserved keys removed" % n, sample={"fn": fc.name, "kind": "COUNT", "removes": n})
+    return Result("violated", "sanitize_public_metadata removes only %d of the 3 reserved keys" % n)
+
+
 def run(tier, seed, notes):
-    return run_kani_group("C10", tier, "kyrodb_server", {"bin/kyrodb_server.rs": "bin_kyrodb_server_proofs.rs"}, HARNESSES, jobs=4, notes=notes)
+    return run_mir_obligations("C10", tier, MOS, notes) + run_kani_group("C10", tier, "kyrodb_server", {"bin/kyrodb_server.rs": "bin_kyrodb_server_proofs.rs"}, HARNESSES, jobs=4, notes=notes)
